@@ -842,6 +842,19 @@ func runFacts(repo, outdir string) error {
 			ordered := ic >= 0 && ip > ic && ifn > ip && strings.Count(msrc, "s.finalizer.Store(") == 1
 			lcc.raw(fmt.Sprintf("/-- `mutateStateLocked` commits the meta state, then publishes the new state, then attaches the finalizer to the replaced one (in that order, once) -/\ndef finalizerAttachedAfterPublish : Bool := %v\n\n", ordered))
 		}
+		{
+			// the rotation goroutine re-reads the closed flag after taking the write lock and before it rotates: a
+			// rotation queued before Close must not run on the empty state Close installs
+			rr, err := walP.fn("WAL", "runRotate")
+			if err != nil {
+				return err
+			}
+			rsrc := walP.src(rr.Body)
+			il := strings.Index(rsrc, "w.writeMu.Lock()")
+			ir := strings.Index(rsrc, "w.rotateSegmentLocked(")
+			ok := il >= 0 && ir > il && (strings.Contains(rsrc[il:ir], "atomic.LoadUint32(&w.closed)") || strings.Contains(rsrc[il:ir], "w.checkClosed()")) && strings.Contains(rsrc[il:ir], "return")
+			lcc.raw(fmt.Sprintf("/-- `runRotate` re-checks the closed flag between taking the write lock and rotating, and returns when closed -/\ndef rotationRechecksClosed : Bool := %v\n\n", ok))
+		}
 		if err := lcc.finish(outdir); err != nil {
 			return err
 		}
